@@ -285,6 +285,20 @@ class LedgerStep(Step):
         return {'log': [tok]}
 
 
+class LedgerDuck(Process):
+    """A step by configuration: not a Step subclass, it answers is_step() itself; listed among the processes."""
+
+    def __init__(self, parameters=None):
+        super().__init__(parameters)
+        self.k = 0
+
+    def is_step(self):
+        return True
+
+    ports_schema = LedgerStep.ports_schema
+    next_update = LedgerStep.next_update
+
+
 def drive(engine, mon, calls, budget_fn):
     """Run the call sequence [(interval, force|'update')] under budgets.
     Returns (completed, exception) - BudgetExceeded / user exceptions are
